@@ -10,7 +10,7 @@ STD_ENUMS = {
     'Cow': [('Borrowed', ['0']), ('Owned', ['0'])],
     'Ordering': [('Less', None), ('Equal', None), ('Greater', None)],
 }
-STD_STRUCTS = {'RangeFrom': ['start'], 'Range': ['start', 'end'], 'RangeInclusive': ['start', 'end', 'exhausted'], 'Compact': ['0'], 'CompactRef': ['0'],
+STD_STRUCTS = {'RangeTo': ['end'], 'RangeToInclusive': ['end'], 'RangeFull': [], 'RangeFrom': ['start'], 'Range': ['start', 'end'], 'RangeInclusive': ['start', 'end', 'exhausted'], 'Compact': ['0'], 'CompactRef': ['0'],
                'PhantomData': []}
 
 
